@@ -191,6 +191,17 @@ class Pipeline:
         env = self.state_env(d)
         return self.it.apply(self.it.val(cl[0], env), shape_for(cl[0].get('params', []), args))
 
+    def apply_raw(self, v, span, what):
+        """what `value` does with the matched value and its span: the closure that calls apply_raw, or apply_raw itself where it is handed to `.map` by name"""
+        d = PP + 'value::value'
+        cl = [c for c in self.closures(d) if self.inner(c) and self.calls('apply_raw')(c)]
+        if len(cl) == 1:
+            return self.it.apply(self.it.val(cl[0], self.state_env(d)), shape_for(cl[0].get('params', []), [v, span]))
+        fn = PP + 'value::apply_raw'
+        if not cl and self.f.has_body(fn) and any(n.get('k') == 'path' and n.get('path') == fn for n in walk(self.f.body(d)['body'])):
+            return self.it.apply_fn(self.f.body(fn), shape_for(self.f.body(fn).get('params', []), [v, span]))
+        raise Unanalysable(f'{len(cl)} closures of `{d}` hand the {what} to apply_raw')
+
     def scripted(self, d, script):
         """the body of a parser function written as statements, with the results of its `parse_next` calls supplied in the order of the grammar"""
         b = self.f.body(d) if self.f.has_body(d) else None
@@ -259,7 +270,7 @@ class Pipeline:
         c = [d for d in self.f.bodies if d.startswith('<toml_edit::internal_string::InternalString as core::convert::From<&') and d.endswith('>::from')]
         return self.fn(c[0], name) if c else name
 
-    WSCN = re.compile(r'(?:[ \t\n]|#[^\n]*\n)*')
+    WSCN = re.compile(r'(?:[ \t\n]|\r\n|#[^\r\n]*(?:\r\n|\n))*')
 
     def array(self, text, pos):
         """`array` on text[pos:] (text[pos] is `[`): array_values and array_value evaluated with what their sub-parsers match; returns (Array, position after `]`)"""
@@ -341,7 +352,7 @@ class Pipeline:
         if text[pos] in '[{':
             inner, end = (self.array if text[pos] == '[' else self.inline_table)(text, pos)
             v = ('ctor', V_ + ('Array' if text[pos] == '[' else 'InlineTable'), (inner,))
-            v = self.action(d, lambda c: self.inner(c) and self.calls('apply_raw')(c), v, rng(pos, end))
+            v = self.apply_raw(v, rng(pos, end), 'container')
             return v, end
         m = VAL_RE.match(text, pos)
         if not m:
@@ -353,14 +364,14 @@ class Pipeline:
             v = self.fn("<toml_edit::value::Value as core::convert::From<bool>>::from", vt == 'true')
         else:
             v = self.fn("<toml_edit::value::Value as core::convert::From<i64>>::from", int(vt))
-        v = self.action(d, lambda c: self.inner(c) and self.calls('apply_raw')(c), v, rng(m.start(), m.end()))
+        v = self.apply_raw(v, rng(m.start(), m.end()), 'scalar')
         return v, m.end()
 
     def line_trailing(self, text, pos):
         """(ws, opt(comment)).span() then the line ending: the span, and the position after the line ending"""
-        m = re.compile(r'[ \t]*(#[^\n]*)?').match(text, pos)
+        m = re.compile(r'[ \t]*(#[^\r\n]*)?').match(text, pos)
         end = m.end()
-        after = end + 1 if end < len(text) and text[end] == '\n' else end
+        after = end + 2 if text.startswith('\r\n', end) else end + 1 if end < len(text) and text[end] == '\n' else end
         if after == end and end != len(text):
             raise ValueError(f'junk after a value at {end} in {text!r}')
         return rng(pos, end), after
@@ -377,13 +388,16 @@ class Pipeline:
         while pos < len(text):
             ch = text[pos]
             if ch == '#':
-                end = text.find('\n', pos)
-                end = len(text) if end < 0 else end + 1
+                mc = re.compile(r'#[^\r\n]*(?:\r\n|\n)?').match(text, pos)
+                end = mc.end()
+                if end < len(text) and text[end - 1] != '\n':
+                    raise ValueError(f'junk after a comment at {end} in {text!r}')
                 self.action(D + 'parse_comment', lambda c: self.inner(c) and self.calls('on_comment')(c), rng(pos, end))
                 pos = end
-            elif ch == '\n':
-                self.action(D + 'parse_newline', lambda c: self.inner(c) and self.calls('on_ws')(c), rng(pos, pos + 1))
-                pos += 1
+            elif ch == '\n' or text.startswith('\r\n', pos):
+                n_ = 1 if ch == '\n' else 2
+                self.action(D + 'parse_newline', lambda c: self.inner(c) and self.calls('on_ws')(c), rng(pos, pos + n_))
+                pos += n_
             elif ch == '[':
                 arr = text.startswith('[[', pos)
                 start = pos
